@@ -51,11 +51,17 @@ def info(out):
 
 def run_task(task):
     import checks.C03 as me
+    if task["params"].get("mode") == "models":
+        from checks import models_tv
+        return models_tv.run_task(task)
     return histcheck.run_task(task, me)
 
 
 def replay(rec):
     import checks.C03 as me
+    if rec["params"].get("mode") == "models":
+        from checks import models_tv
+        return models_tv.replay(rec)
     return histcheck.replay(rec, me)
 
 
@@ -99,7 +105,24 @@ def tasks(tier, seed, selftest=False):
     else:
         for f in ("block", "scc"):
             S.append(dict(family="B21", skeleton=(f,), timebox=20))
-    return histcheck.mk_tasks(PROP, S, seed)
+    T = histcheck.mk_tasks(PROP, S, seed)
+    # the published models (5-321 variables): z3 decides over all subspaces that what a complete strategy reports is
+    # exactly the set of minimal trap spaces (checks/models_tv.py; the models' Petri nets are validated by C10)
+    import glob
+    import os
+    mdir = os.path.join(os.environ.get("VERIF_REPO", "/repo"), "models/bbm-bnet-inputs-true")
+    paths = sorted(glob.glob(os.path.join(mdir, "*.bnet")), key=os.path.getsize)
+    allst = ["min", "bfs", "dfs", "block", "scc", "aseeds"]
+    nsmall = 90 if q else len(paths)
+    for i in range(0, nsmall, 10 if q else 4):
+        T.append({"prop": PROP, "family": "-", "label": "models/all-strategies", "timebox": 20 if q else 120, "seed": seed,
+                  "params": {"mode": "models", "models": paths[:nsmall][i:i + (10 if q else 4)], "strats": allst}})
+    if q:
+        rest = paths[nsmall:]
+        for i in range(0, len(rest), 8):
+            T.append({"prop": PROP, "family": "-", "label": "models/minimal-space-expansion", "timebox": 20, "seed": seed,
+                      "params": {"mode": "models", "models": rest[i:i + 8], "strats": ["min"]}})
+    return T
 
 
 def main(tier, seed, t0, selftest=False):
@@ -108,6 +131,8 @@ def main(tier, seed, t0, selftest=False):
                          bounds={"history": "K<=2: [plain prefix op] + completing strategy, or [limited op] + skip_remaining / skip_to_minimal on all stubs",
                                  "families": "U2 exhaustive for K=1; D3/B21 slices (quick); U3, B22, CH4, S2C2 (thorough, time-boxed cubes)",
                                  "options": "block: maa/optsrc/exact flags symbolic; scc: maa flag; min: skip_ignored flag",
-                                 "limits": f"-1(None)..{hist.MAXLIM}"},
-                         assumptions=["contract stubs of DESIGN.md §8 validated on every representative",
+                                 "limits": f"-1(None)..{hist.MAXLIM}",
+                                 "published models": "models/bbm-bnet-inputs-true: quick = 90 smallest models x {minimal-space, bfs, dfs, block, scc, attractor-seed} expansion + minimal-space expansion on all others; thorough = every strategy on every model; runs that stop at their size limit (bfs/dfs 150 nodes, others 400) or exceed the task's time cap report nothing and are counted; per run z3 decides over all subspaces: reported spaces closed, none contains a smaller trap space, no trap space avoids all of them"},
+                         assumptions=["published models: the library's Petri net of the model is the trap-space characterisation used by z3; its equivalence with the update functions over all states is decided per model by C10",
+                                      "contract stubs of DESIGN.md §8 validated on every representative",
                                       "compute_attractors_symbolic is a region oracle specified by REACH (decided by C12)"])
